@@ -108,6 +108,23 @@ class Gen:
 
     def special(self):
         D = self.defs
+        # attributes written with a trailing comma
+        for named in (True, False):
+            for attr in ('compact', 'skip', 'encoded_as'):
+                f0 = self.fld(0, 3, attr, named)
+                f0['trail'] = True
+                D.append({'kind': 'struct', 'name': 'S%d' % len(D), 'named': named, 'fields': [f0, self.fld(1, 0, 'none', named)], 'generics': [], 'transparent': False})
+        f0 = self.fld(0, 3, 'compact', False)
+        f0['trail'] = True
+        D.append({'kind': 'struct', 'name': 'S%d' % len(D), 'named': False, 'fields': [f0], 'generics': [], 'transparent': False})
+        fc = self.fld(0, 3, 'compact', False)
+        fc['trail'] = True
+        vs = [{'name': 'A', 'fields': [], 'skip': False, 'src': 'attr', 'attr_index': 7, 'kind': 'unit', 'trail': True},
+              {'name': 'B', 'fields': [self.fld(0, 0, 'none', False)], 'skip': True, 'src': 'implicit', 'kind': 'tuple', 'trail': True},
+              {'name': 'C', 'fields': [fc, self.fld(1, 1, 'none', False)], 'skip': False, 'src': 'implicit', 'kind': 'tuple'},
+              {'name': 'D', 'fields': [], 'skip': False, 'src': 'attr', 'attr_index': 200, 'kind': 'unit', 'trail': True}]
+        self.assign_indices(vs)
+        D.append({'kind': 'enum', 'name': 'E%d' % len(D), 'variants': vs, 'generics': []})
         # unit struct
         D.append({'kind': 'struct', 'name': 'S%d' % len(D), 'named': None, 'fields': [], 'generics': [], 'transparent': False})
         # generics: plain, compact, used only in a skipped field
@@ -307,14 +324,17 @@ def render(defs):
            'impl MaxEncodedLen for AsFixed { fn max_encoded_len() -> usize { 4 } }', '']
 
     def fattr(f):
+        # `trail`: the same attribute written with a trailing comma inside the parentheses (accepted by the attribute
+        # grammar, so it must mean the same)
+        tc = ',' if f.get('trail') else ''
         if f['attr'] == 'skip':
-            return '#[codec(skip)] '
+            return '#[codec(skip%s)] ' % tc
         if f['attr'] == 'compact':
-            return '#[codec(compact)] '
+            return '#[codec(compact%s)] ' % tc
         if f['attr'] == 'encoded_as' and f.get('rep'):
-            return '#[codec(encoded_as = "%s")] ' % f['rep']
+            return '#[codec(encoded_as = "%s"%s)] ' % (f['rep'], tc)
         if f['attr'] == 'encoded_as':
-            return '#[codec(encoded_as = "<%s as HasCompact>::Type")] ' % f['ty']
+            return '#[codec(encoded_as = "<%s as HasCompact>::Type"%s)] ' % (f['ty'], tc)
         return ''
 
     def fields_src(fs, named):
@@ -357,10 +377,11 @@ def render(defs):
                     # two separate attributes, the index first: both must be seen
                     line += '#[codec(index = %s)] #[codec(skip)] ' % _lit(v['attr_index'])
                 else:
+                    vtc = ',' if v.get('trail') else ''
                     if v['skip']:
-                        line += '#[codec(skip)] '
+                        line += '#[codec(skip%s)] ' % vtc
                     if 'attr_index' in v:
-                        line += '#[codec(index = %s)] ' % _lit(v['attr_index'])
+                        line += '#[codec(index = %s%s)] ' % (_lit(v['attr_index']), vtc)
                 line += v['name'] + vfields_src(v['fields'], v['kind'])
                 if 'discr' in v:
                     line += ' = %s' % (v.get('discr_src') or _lit(v['discr'], suffix=False))
